@@ -184,7 +184,6 @@ func InitSharedMultiColumnReaders(segKey string, colNames map[string]bool,
 	sharedReader := &SharedMultiColReaders{
 		MultiColReaders: make([]*MultiColSegmentReader, numReaders),
 		numReaders:      numReaders,
-		numOpenFDs:      maxOpenFds,
 		allFDs:          allFDs,
 		columnErrorMap:  make(map[string]error),
 	}
@@ -193,13 +192,16 @@ func InitSharedMultiColumnReaders(segKey string, colNames map[string]bool,
 	if err != nil {
 		return sharedReader, fmt.Errorf("qid=%d, InitSharedMultiColumnReaders: Failed to acquire resources to be able to open %+v FDs. Error: %+v", qid, maxOpenFds, err)
 	}
+	// only set once the FDs are actually held, so Close() never releases more than was acquired
+	sharedReader.numOpenFDs = maxOpenFds
 	csgFileToColNameMap := make(map[string]string)
 	bulkDownloadFiles := make(map[string]string)
 
 	var fName string
 	for cname, fetchFromBlob := range colNames {
 		if cname == "" {
-			return nil, fmt.Errorf("InitSharedMultiColumnReaders: unknown seg set col")
+			sharedReader.Close()
+			return sharedReader, fmt.Errorf("InitSharedMultiColumnReaders: unknown seg set col")
 		} else if cname == "*" {
 			continue
 		} else {
@@ -284,6 +286,13 @@ func (scr *SharedMultiColReaders) Close() {
 		log.Errorf("SharedMultiColReaders.Close: Failed to release needed segment files from local storage %+v! err: %+v", scr.allInUseFiles, err)
 	}
 	fileutils.GLOBAL_FD_LIMITER.Release(scr.numOpenFDs)
+	// a second Close() (e.g. by a caller after a failed init already closed) must be a no-op
+	scr.numOpenFDs = 0
+	scr.allFDs = nil
+	scr.allInUseFiles = nil
+	for i := range scr.MultiColReaders {
+		scr.MultiColReaders[i] = nil
+	}
 }
 
 func (scr *SharedMultiColReaders) GetColumnsErrorsMap() map[string]error {
